@@ -79,11 +79,15 @@ pub struct BatchStats {
     pub ticks: u64,
     pub steps: u64,
     pub switches: u64,
-    pub f: [u64; 7],
+    pub f: [u64; 8],
     pub preempt_site: [u64; NSITES],
     pub pairs: BTreeMap<(u8, u8), u64>,
     pub work_differs: u64,
     pub sens_calls: u64,
+    pub clock_reads: u64,
+    pub block_ticks: u64,
+    pub shared_hits: u64,
+    pub futex_waits: u64,
     pub sched_nontrivial: BTreeSet<u64>,
     pub runs_with_preempt: u64,
     pub by_policy: BTreeMap<String, u64>,
@@ -151,9 +155,13 @@ pub fn run_batch(
                     bs.switches += g("sw");
                     bs.work_differs += g("wd");
                     bs.sens_calls += g("sens");
+                    bs.clock_reads += g("cr");
+                    bs.block_ticks += g("bt");
+                    bs.shared_hits += g("shh");
+                    bs.futex_waits += g("fw");
                     bs.max_inflight = bs.max_inflight.max(g("mi"));
                     if let Some(a) = v.get("f").and_then(|x| x.as_array()) {
-                        for (k, x) in a.iter().enumerate().take(7) {
+                        for (k, x) in a.iter().enumerate().take(8) {
                             bs.f[k] += x.as_u64().unwrap_or(0);
                         }
                     }
@@ -303,7 +311,8 @@ fn batch_json(b: &BatchStats) -> Value {
         "name": b.name, "runs_planned": b.planned, "runs_with_verdict": b.completed, "ok": b.ok,
         "violations": b.violations.len(), "inconclusive_step_cap": b.inconclusive, "lost_control": b.lost_control,
         "crashed": b.crashed, "crash_examples": b.crash_examples, "degraded_to_call_granularity": b.degraded,
-        "calls": b.calls, "ticks": b.ticks, "decision_points": b.steps, "context_switches": b.switches,
+        "calls": b.calls, "ticks": b.ticks, "block_ticks": b.block_ticks, "decision_points": b.steps, "context_switches": b.switches,
+        "shared_access_hits": b.shared_hits, "futex_waits_intercepted": b.futex_waits, "virtual_clock_reads": b.clock_reads,
         "runs_with_intra_call_preemption": b.runs_with_preempt,
         "distinct_schedules_with_intra_call_preemption": b.sched_nontrivial.len(),
         "max_calls_in_flight": b.max_inflight,
@@ -578,7 +587,8 @@ pub fn write_replay_file(
     let path = format!("{}/C16-{}.json", dir, tag);
     let mut v = json!({
         "property": "C16",
-        "format": "sc_sim replay v1: threads = per client the calls in order; switches = [thread, call_no, tick, to_thread] in global order (tick 0 = boundary before call_no; call_no = number of calls = thread exit); start = first thread to run; when the list runs out threads finish in index order",
+        "format": "sc_sim replay v1: threads = per client the calls in order; switches = [thread, call_no, tick, to_thread] in global order (tick 0 = boundary before call_no; call_no = number of calls = thread exit); start = first thread to run; when the list runs out threads finish in index order; clock_jumps = per thread [call_no, monotonic_jump_ns, wall_clock_jump_ns] applied to the run's virtual clock at the boundary before that call; positions count source ticks and, when granularity is basic_block, block ticks of the instrumented build",
+        "granularity": if crate::tick::bb_guards() > 0 { "basic_block" } else { "source_tick" },
         "seed": seed, "tier": tier, "origin": origin,
         "violation": res.rec.get("violation").cloned().unwrap_or(Value::Null),
         "event_log_hash": res.hash(),
@@ -588,7 +598,7 @@ pub fn write_replay_file(
         v["minimisation"] = json!({"candidates_run": m.candidates, "accepted": m.accepted, "wall_s": m.wall_s});
     }
     let cj = case.to_json();
-    for k in ["threads", "churn", "start", "switches"] {
+    for k in ["threads", "churn", "start", "switches", "clock_jumps"] {
         v[k] = cj[k].clone();
     }
     let _ = std::fs::write(&path, serde_json::to_string_pretty(&v).unwrap_or_default());
@@ -682,7 +692,7 @@ pub fn check(o: &CheckOpts) -> i32 {
     // isolated nondeterminism: two isolated evaluations of the same call differ
     for (k, (call, a, b)) in ost.isolated_nondeterminism.iter().enumerate().take(3) {
         raw_violations += 1;
-        let case = Case { threads: vec![vec![call.clone()]], churn: vec![vec![]], start: 0, switches: vec![] };
+        let case = Case { threads: vec![vec![call.clone()]], churn: vec![vec![]], start: 0, switches: vec![], jumps: vec![vec![]] };
         let rr = RunResult {
             status: "violation".into(),
             rec: json!({"violation": {"kind": "isolated_nondeterminism", "call": call.to_json(), "expected": a, "observed": b, "client": 0, "call_no": 0}}),
@@ -702,7 +712,7 @@ pub fn check(o: &CheckOpts) -> i32 {
     }
     for (k, (call, a, b)) in amb.mismatches.iter().enumerate().take(2) {
         raw_violations += 1;
-        let case = Case { threads: vec![vec![call.clone()]], churn: vec![vec![]], start: 0, switches: vec![] };
+        let case = Case { threads: vec![vec![call.clone()]], churn: vec![vec![]], start: 0, switches: vec![], jumps: vec![vec![]] };
         let rr = RunResult {
             status: "violation".into(),
             rec: json!({"violation": {"kind": "isolated_nondeterminism", "detail": "differs between a forked child of the driver and a freshly exec'd process with another environment / address-space layout", "call": call.to_json(), "expected": a, "observed": b, "client": 0, "call_no": 0}}),
@@ -824,14 +834,14 @@ pub fn check(o: &CheckOpts) -> i32 {
     let search: Vec<&BatchStats> = batches.iter().collect();
     let evaluations: u64 = search.iter().map(|b| b.completed).sum();
     let mut nontrivial: BTreeSet<u64> = BTreeSet::new();
-    let mut f = [0u64; 7];
+    let mut f = [0u64; 8];
     let mut ps = [0u64; NSITES];
     let mut pairs: BTreeMap<(u8, u8), u64> = BTreeMap::new();
     let (mut calls, mut ticks, mut steps, mut switches, mut wd, mut sens, mut lost, mut inconc, mut crashed) = (0u64, 0u64, 0u64, 0u64, 0u64, 0u64, 0u64, 0u64, 0u64);
     for b in &search {
         // the det_w4 / det_w1 batches repeat det_w16's seeds: their schedules are the same ones, the set dedups them
         nontrivial.extend(b.sched_nontrivial.iter().copied());
-        for k in 0..7 {
+        for k in 0..8 {
             f[k] += b.f[k];
         }
         for k in 0..NSITES {
@@ -902,7 +912,7 @@ pub fn check(o: &CheckOpts) -> i32 {
             });
             let _ = std::fs::write(&path, serde_json::to_string_pretty(&v).unwrap_or_default());
             let class = ("any".to_string(), kind.to_string());
-            let case = Case { threads: vec![], churn: vec![], start: 0, switches: vec![] };
+            let case = Case { threads: vec![], churn: vec![], start: 0, switches: vec![], jumps: vec![] };
             let kn = match_known(&known, &class, &case);
             findings.push(Finding { file: path, class, case, known: kn, confidence: format!("{} of {} Miri seeds fail", m.failing_seeds.len(), m.seeds) });
         }
@@ -925,7 +935,7 @@ pub fn check(o: &CheckOpts) -> i32 {
     }
 
     let mut fired = Map::new();
-    for k in 0..7 {
+    for k in 0..8 {
         fired.insert(FAULT_NAMES[k].to_string(), json!(f[k]));
     }
     let mut pair_list: Vec<Value> = Vec::new();
@@ -968,6 +978,10 @@ pub fn check(o: &CheckOpts) -> i32 {
                 "by_origin": origin_counts, "by_evaluator": per_ev,
             },
             "probes": {
+                "virtual_clock_reads_by_the_library": batches.iter().map(|b| b.clock_reads).sum::<u64>(),
+                "futex_waits_intercepted": batches.iter().map(|b| b.futex_waits).sum::<u64>(),
+                "shared_access_hits": batches.iter().map(|b| b.shared_hits).sum::<u64>(),
+                "block_ticks": batches.iter().map(|b| b.block_ticks).sum::<u64>(),
                 "work_differs_calls": wd,
                 "placeholder_sensitive_calls_executed": sens,
                 "placeholder_sensitive_share": if calls > 0 { (sens as f64 / calls as f64 * 1000.0).round() / 1000.0 } else { 0.0 },
@@ -1007,7 +1021,7 @@ pub fn check(o: &CheckOpts) -> i32 {
         "C16: {} runs with verdict ({} distinct schedules with intra-call pre-emption), {} calls, {} ticks, {} switches; no-verdict: {} step-cap, {} lost-control, {} crashed; site-pair fill {}/{}; wall {:.1}s",
         evaluations, nontrivial.len(), calls, ticks, switches, inconc, lost, crashed, filled, cells, wall
     );
-    println!("fault kinds fired: {}", (0..7).map(|k| format!("{}={}", FAULT_NAMES[k], f[k])).collect::<Vec<_>>().join(" "));
+    println!("fault kinds fired: {}", (0..8).map(|k| format!("{}={}", FAULT_NAMES[k], f[k])).collect::<Vec<_>>().join(" "));
     if evaluations == 0 {
         eprintln!("HARNESS-ERROR: no run reached a verdict");
         return 2;
